@@ -500,7 +500,10 @@ Qed.
 (* every byte string: only the slice site, and only on bytes that are not UTF-8 *)
 Theorem from_str_chk_panics : forall s site, from_str_chk s = Panic site -> site = PSlice /\ utf8_valid_b s = false.
 Proof.
-  intros s site. unfold from_str_chk. apply from_str_chk_with_panics; unfold FRAC_DIGITS, FRAC_TOP_EXP; lia.
+  intros s site. unfold from_str_chk.
+  (* the two side conditions are COMPUTED from the constants: a changed bound or exponent in the source
+     (FRAC_DIGITS / FRAC_TOP_EXP, to be the generated SD_FRAC_DIGITS / SD_FRAC_TOP_EXP) breaks this proof *)
+  apply from_str_chk_with_panics; apply Nat.leb_le; reflexivity.
 Qed.
 
 (* every &str: no site at all *)
@@ -515,6 +518,7 @@ Proof. intros s site H. exact (proj1 (from_str_chk_panics s site H)). Qed.
 Theorem chk_refines : forall s r, from_str_chk s = Done r -> std_from_str s = r.
 Proof.
   intros s res. unfold from_str_chk, from_str_chk_with, std_from_str.
+  (* Model/DatetimeStd.v has 9 and 8 built in: the constants must be convertible with them *)
   change FRAC_DIGITS with 9. change FRAC_TOP_EXP with 8.
   destruct (Nat.ltb (List.length s) SD_MIN_LEN); [congruence|]. cbv zeta.
   destruct (match nth_error s 2 with Some b => byte_eqb b colon | None => false end).
